@@ -482,6 +482,48 @@ theorem release_seq_heap {w : World} (h : WFSeq w) {n : Nat} {hp : Heap SAddr} (
     exact Rr
   · exact h.nodup
 
+theorem retirePredecessors_nodup (w : World) (o : Owner) (ss : List Nat) (hnd : ∀ s, (w.pendingOf s).Nodup) :
+    ∀ s, ((w.retirePredecessors o ss).pendingOf s).Nodup := by
+  unfold retirePredecessors
+  induction ss generalizing w with
+  | nil => exact hnd
+  | cons s ss ih => exact ih _ (setSeqPending_nodup w s _ (retireUntil_nodup o) hnd)
+
+/-- the script an accepted call runs on the sequence lists (`run_actions`): `retire_predecessors()`, and `retire()` if this
+    call saturates the expectation. -/
+def callSeqScript (w : World) (e : Nat) (x : Exp) : List (Ring.Op SAddr) :=
+  skipScript w (.exp e) x.seqs ++ (if x.count + 1 = x.hi then retireScript (.exp e) x.seqs else [])
+
+/-- **an accepted call on the sequence lists**: the bookkeeping of `run_actions` — skip the predecessors in every sequence of
+    the expectation, leave the sequences if the call saturates it — performed as ring operations takes a heap representing the
+    pending lists before the call to one representing them after it. -/
+theorem accepted_call_seq_heap {w : World} (h : WFSeq w) {n : Nat} {hp : Heap SAddr} (R : Rep hp (seqRingOf w n))
+    (o f e : Nat) (x : Exp) (m : Mock) (hx : w.exps e = some x) :
+    Rep (run (seqRingOf w n, hp) (callSeqScript w e x)).2 (seqRingOf (w.bookkeep o f e x m) n) := by
+  have hss : x.seqs.Nodup := by
+    have := h.ownNodup (.exp e)
+    simpa [ownerSeqs, hx] using this
+  have R1 := skip_heap R (.exp e) x.seqs hss h.nodup
+  unfold callSeqScript
+  rw [run_append]
+  obtain ⟨_, e1⟩ := skip_run w n hp (.exp e) x.seqs hss h.nodup
+  have hst : run (seqRingOf w n, hp) (skipScript w (.exp e) x.seqs) =
+      (seqRingOf (w.retirePredecessors (.exp e) x.seqs) n, (run (seqRingOf w n, hp) (skipScript w (.exp e) x.seqs)).2) := by
+    rw [← e1]
+  rw [hst]
+  by_cases hc : x.count + 1 = x.hi
+  · simp only [hc, if_true]
+    have R2 := retire_heap R1 (.exp e) x.seqs (retirePredecessors_nodup w _ _ h.nodup)
+    have hseqs : (w.bookkeep o f e x m).seqs = ((w.retirePredecessors (.exp e) x.seqs).retireOwn (.exp e) x.seqs).seqs := by
+      unfold bookkeep; simp [hc, setMock, setExp]
+    rw [seqRingOf_congr hseqs]
+    exact R2
+  · simp only [hc, if_false]
+    have hseqs : (w.bookkeep o f e x m).seqs = (w.retirePredecessors (.exp e) x.seqs).seqs := by
+      unfold bookkeep; simp [hc, setExp]
+    rw [seqRingOf_congr hseqs]
+    exact R1
+
 /-! ### the hypotheses are met, and the scripts are not empty -/
 
 /-- before any registration the untouched heap represents `n` empty pending lists. -/
